@@ -19,6 +19,8 @@ var (
 	flagKeyPool = []string{"f0", "checkout-50%-discount%d", "f2", "f3", "f4", "f5", "f6", "f1"}
 	saltPool    = []string{"", "salt", "s2", strings.Repeat("S", 120)}
 	dateStrs    = []string{"2020-01-01T00:00:00Z", "2020-01-01T00:00:00.5Z", "2019-12-31T23:00:00-01:00", "1970-01-01T00:00:00Z", "0001-01-01T00:00:00Z", "9999-12-31T23:59:59.999999999Z", "2020-02-31T00:00:00Z", "2020-01-01t00:00:00z", "2020-01-01T0:00:00Z", "2020-01-01", "not a date", "2020-01-01T00:00:00+99:59",
+		"2020-00-10T00:00:00Z", "2020-13-10T00:00:00Z", "2020-01-00T00:00:00Z", "2020-01-32T00:00:00Z", "2020-01-01T24:00:00Z",
+		"2020-01-01T23:60:00Z", "2020-01-01T23:59:60Z", "2020-01-01T23:59:61Z", "2020-01-01T00:00:00+01:60", "2020-01-01T00:00:00-24:00", "2020-01-01T00:00:00.Z",
 		" 2020-01-01T00:00:00Z", "2020-01-01T00:00:00+00:00\n", "\t2019-12-31T23:00:00-01:00 ", "2020-01-01T00:00:00Z "}
 	dateNums  = []float64{0, 1577836800000, 1577836800500, 1577833200000, -62135596800000, 253402300799000, 253402300799999, 1.5, -1, 9.3e18}
 	verStrs   = []string{"1.0.0", "1.0", "1", "2.0.0", "1.0.0-rc.1", "1.0.0-rc.2", "1.0.0-rc.10", "1.0.0-alpha", "1.0.0+build", "1.2.3-a.b+c.d", "01.0.0", "1.0.0-", "1..0", "v1.0.0", "1.0.0-rc..1", "10.0.0", "1.10.0", "1.2.3.4", " 1.0.0", "1.0.0 ", "1.0.0\n", "+1.0.0"}
@@ -215,7 +217,11 @@ func (g *gen) ref(withKind bool) WRef {
 	if !withKind {
 		return mkRef("lit", name)
 	}
-	switch r.intn(5) {
+	switch r.intn(6) {
+	case 5:
+		// a literal attribute name together with a context kind (ldbuilders.ClauseWithKind,
+		// SegmentRuleBuilder.BucketBy): a name starting with '/' stays a name
+		return mkRef("lit", name)
 	case 0:
 		return mkRef("ref", "/"+strings.NewReplacer("~", "~0", "/", "~1").Replace(name))
 	case 1:
@@ -276,8 +282,25 @@ func (g *gen) clauseValues(op string) []JV {
 func (g *gen) clause(segKeys []string) WClause {
 	r := g.r
 	if len(segKeys) > 0 && r.chance(g.p.PSegClause, 100) {
-		c := WClause{Op: "segmentMatch", Neg: r.chance(1, 5), Attr: mkRef("", "")}
-		for i, n := 0, 1+r.intn(2); i < n; i++ {
+		c := WClause{Op: "segmentMatch", Neg: r.chance(1, 5), Attr: mkRef("", ""), Vals: []JV{}}
+		// the operator is tested before anything else about the clause: a context kind the context
+		// may lack, an attribute (valid, missing or malformed) and an empty value list change nothing
+		if r.chance(1, 6) {
+			c.CK = pick(r, clauseKinds)
+		}
+		if r.chance(1, 6) {
+			c.Attr = g.ref(c.CK != "")
+			if r.chance(1, 3) {
+				c.Attr = g.refMal()
+			}
+		}
+		n := 1 + r.intn(2)
+		if r.chance(1, 8) {
+			n = 0
+		} else if r.chance(1, 10) {
+			n = 3 + r.intn(4)
+		}
+		for i := 0; i < n; i++ {
 			if r.chance(1, 10) {
 				c.Vals = append(c.Vals, g.value(0))
 			} else if r.chance(1, 8) {
@@ -613,6 +636,9 @@ func (g *gen) evalCase(id string) *EvalCase {
 		c.Opts.LogMode = "nilopt"
 	}
 	c.Opts.NilOption = r.chance(1, 10)
+	if r.chance(1, 6) {
+		c.Opts.Shuffle = r.next() | 1
+	}
 
 	nSeg := r.intn(g.p.MaxSegs + 1)
 	segKeys := segKeyPool[:nSeg]
